@@ -132,6 +132,14 @@ def rule_git1(A: Analysis, rep):
               "", "is_ancestor runs %s" % a)
     r = [x for x in walk_local(isa.node) if isinstance(x, ast.Return)]
     rep.check(len(r) == 1 and norm(r[0].value).endswith(".returncode == 0"), "GIT1", "ancestor iff exit 0", isa.node, "", "is_ancestor's verdict is not `returncode == 0`")
+    # is_used: the project "uses git" exactly when `git rev-parse --git-dir`, run in the project root, succeeds (git
+    # itself searches the parent directories: a project below the repository's top level is still under git)
+    iu = A.fn("utils.git.Git.is_used")
+    a_u = argv(iu, "rev-parse")
+    rv_u = A.ret_values(iu)
+    ok_u = a_u == ["'git'", "'rev-parse'", "'--git-dir'"] and bool(rv_u) and all(not c and v.endswith(".returncode == 0") for c, v in rv_u)
+    rep.check(ok_u, "GIT1", "uses-git = `git rev-parse --git-dir` succeeds", iu.node, "every return of is_used() is that command's verdict, unconditionally",
+              "is_used() returns %s" % [(fmt_conj(c), v[:60]) for c, v in rv_u])
     a = argv(dist, "rev-list")
     rep.check(a == ["'git'", "'rev-list'", "'--count'", dist.params[1], "'^{}'.format(%s)" % dist.params[2]], "GIT1", "rev-list --count <start> ^<ancestor>", dist.node,
               "", "get_distance runs %s" % a)
